@@ -472,6 +472,10 @@ func TestVerifC19IAM(t *testing.T) {
 		}
 	}
 
+	// ---------------- (4), (5) grammar products (zz_verif_c19_grammar_test.go)
+	verifC19Grammar(t, s, verifC19GrammarEnv{w: w, client: client, holder: holder, issuer: issuer, holderKey: holderKey, issuerKey: issuerKey,
+		baseParams: baseParams, want: want, validPD: validPD, metadata: validMetadata})
+
 	for k, v := range s.PerEntry() {
 		r.AddExtra("calls:"+k, v)
 	}
